@@ -41,3 +41,74 @@ Example roundtrip_example :
   Forall wf_comp [CName [c_caret]; CName (T "knot"); CIdx 3] /\
   path_string (path_new [CName [c_caret]; CName (T "knot"); CIdx 3] true) = T ".^.knot.3".
 Proof. split; [|reflexivity]. repeat constructor; cbn; try discriminate; intuition discriminate. Qed.
+
+(* ======================================================================
+   Tree level (worker `loader`; lemmas in Data/TreeProofs.v, predicate in
+   Data/Tree.v).  [wf_tree] is executable and is evaluated on every corpus
+   story by tools/props/c19_tree.py, which also diffs the model's audit listing
+   (Json/AuditRun.v) with the content-audit hook of the implementation.
+   ====================================================================== *)
+From Ink.Data Require Import Tree TreeProofs.
+
+(* (3) every object's own path resolves, from the root, back to that very
+   object, without approximation *)
+Theorem path_resolves_to_self :
+  forall root p, wf_tree root = true -> valid_pos root p ->
+    exists path, get_path root p = Ok path
+      /\ content_at_path root path = {| sr_pos := p; sr_approx := false |}.
+Proof. exact path_resolves_to_self_lemma. Qed.
+Check path_resolves_to_self :
+  forall root p, wf_tree root = true -> valid_pos root p ->
+    exists path, get_path root p = Ok path
+      /\ content_at_path root path = {| sr_pos := p; sr_approx := false |}.
+Print Assumptions path_resolves_to_self.
+
+(* (4) the reported path is absolute and made of well-formed components ... *)
+Theorem get_path_wf :
+  forall root p path, wf_tree root = true -> valid_pos root p -> get_path root p = Ok path ->
+    Forall wf_comp (p_comps path) /\ p_rel path = false.
+Proof. exact get_path_wf_lemma. Qed.
+Check get_path_wf :
+  forall root p path, wf_tree root = true -> valid_pos root p -> get_path root p = Ok path ->
+    Forall wf_comp (p_comps path) /\ p_rel path = false.
+Print Assumptions get_path_wf.
+
+(* ... hence converting it to text and parsing it back gives an equal, absolute path *)
+Theorem own_path_text_roundtrip :
+  forall root p path, wf_tree root = true -> valid_pos root p -> get_path root p = Ok path ->
+    path_eqb (path_of_string (Some (path_string path))) path = true
+    /\ p_rel (path_of_string (Some (path_string path))) = false.
+Proof. exact own_path_text_roundtrip_lemma. Qed.
+Check own_path_text_roundtrip :
+  forall root p path, wf_tree root = true -> valid_pos root p -> get_path root p = Ok path ->
+    path_eqb (path_of_string (Some (path_string path))) path = true
+    /\ p_rel (path_of_string (Some (path_string path))) = false.
+Print Assumptions own_path_text_roundtrip.
+
+(* (5) a position written into a save or a choice — container path plus index —
+   denotes the same position when read back (Pointer::get_path, Story::pointer_at_path) *)
+Theorem pointer_roundtrip :
+  forall root cp c i, wf_tree root = true -> cont_at root cp = Some c -> (0 <= i <= i32_max)%Z ->
+    exists path, ptr_path root (mkPtr (Some cp) i) = Ok (Some path)
+              /\ pointer_at_path root path = Ok (mkPtr (Some cp) i).
+Proof. exact pointer_roundtrip_lemma. Qed.
+Check pointer_roundtrip :
+  forall root cp c i, wf_tree root = true -> cont_at root cp = Some c -> (0 <= i <= i32_max)%Z ->
+    exists path, ptr_path root (mkPtr (Some cp) i) = Ok (Some path)
+              /\ pointer_at_path root path = Ok (mkPtr (Some cp) i).
+Print Assumptions pointer_roundtrip.
+
+(* non-vacuity: a concrete tree with a named knot, an unnamed nested container,
+   a labelled gather and named-only content satisfies wf_tree; and the
+   hypothesis is needed: with two content children registered under one name
+   the first one's own path resolves to the second *)
+Theorem wf_tree_example : wf_tree ex_root = true /\ valid_pos ex_root [SI 0; SN (T "stitch"); SI 1].
+Proof. exact (conj ex_root_wf (proj1 ex_named_only_resolves)). Qed.
+Print Assumptions wf_tree_example.
+
+Theorem wf_tree_needed :
+  wf_tree ex_clash = false
+  /\ get_path ex_clash [SI 0] = Ok (path_new [CName (T "a")] false)
+  /\ content_at_path ex_clash (path_new [CName (T "a")] false) = mkSR [SI 1] false.
+Proof. exact (conj ex_clash_not_wf ex_clash_resolves_elsewhere). Qed.
+Print Assumptions wf_tree_needed.
